@@ -328,8 +328,14 @@ impl Ctx {
                             Instant::now(),
                             serde_json::to_value(&case).unwrap_or(Value::Null),
                         ));
+                        let t_case = Instant::now();
                         let res = check(&case, w);
                         *current[w].lock().unwrap() = None;
+                        if let Ok(ms) = std::env::var("VERIF_DEBUG_SLOW") {
+                            if t_case.elapsed().as_millis() as u64 > ms.parse::<u64>().unwrap_or(10_000) {
+                                eprintln!("slow case ({} ms): {}", t_case.elapsed().as_millis(), serde_json::to_string(&case).unwrap_or_default());
+                            }
+                        }
                         match self.record(label, &case, &res) {
                             Ok(()) => Ok(()),
                             Err(reason) => {
